@@ -81,7 +81,12 @@ def inserted(spec, picks):
                     if (m[0] - a[0]) * (b[1] - a[1]) != (m[1] - a[1]) * (b[0] - a[0]):
                         out.append(seg)
                         continue
-                out += [[a, m], [m, b]]
+                if t % 2 == 0 and all(rg.is_exact(v) for p in seg for v in p):
+                    # two redundant vertices on the same edge (three pieces)
+                    m2 = (a[0] + (b[0] - a[0]) * (tt + 1) / 2 if False else (m[0] + b[0]) / 2, (m[1] + b[1]) / 2)
+                    out += [[a, m], [m, m2], [m2, b]]
+                else:
+                    out += [[a, m], [m, b]]
                 state["n"] += 1
             else:
                 tt = 0.2 + 0.6 * ((t % 7) / 6.0)
@@ -91,7 +96,14 @@ def inserted(spec, picks):
                 sf = [rg.fl(p) for p in seg]
                 l, r = rg.bez_split(sf, tt)
                 r[0] = l[-1]
-                out += [l, r]
+                if t % 2 == 0 and _reducible(seg, 0, tt / 2) == "no" and _reducible(seg, tt / 2, tt) == "no":
+                    # three consecutive pieces of one curved segment
+                    l1, l2 = rg.bez_split(l, 0.5)
+                    l2[0] = l1[-1]
+                    l2[-1] = r[0]
+                    out += [l1, l2, r]
+                else:
+                    out += [l, r]
                 state["curved"] = True
                 state["n"] += 1
         return out
